@@ -865,6 +865,9 @@ std::vector<DataView> featureData(const MultiTag &tag, std::vector<ndsize_t> pos
         return views;
     }
 
+    if (position_indices.empty()) {
+        return views; // all positions of a multi tag that has none: *max_element of an empty range is undefined
+    }
     ndsize_t max_index = *max_element(position_indices.begin(), position_indices.end());
     if (max_index >= tag.positions().dataExtent()[0]) {
         throw OutOfBounds("Index out of bounds of positions!", 0);
